@@ -122,6 +122,15 @@ def execute(ctx, case: dict) -> None:
             back = helpers.string_to_ports(intervals.encode(iset))
             if intervals.from_ints(back) != iset:
                 ctx.violation(case, "codec round trip lost ports", {"back": back[:20]})
+            # the result belongs to the caller: change it in place, decode the same string again
+            back.append(4242)
+            if back:
+                back.pop(0)
+            again = helpers.string_to_ports(intervals.encode(iset))
+            ctx.count("decoded_list_mutated_then_decoded_again")
+            if intervals.from_ints(again) != iset:
+                ctx.violation(case, "decoding the same string again is influenced by what the caller did with the first result",
+                              {"string": intervals.encode(iset)[:60], "second": again[:12]})
             if text != intervals.encode(iset):
                 ctx.violation(case, "ports_to_string is not the canonical encoding", {"text": text[:80]})
         except Exception as ex:  # pylint: disable=broad-except
